@@ -20,6 +20,35 @@ CLAIMED = {
             "TLA+ functional spec + TLC case enumeration + TLC trace validation of real answers", "7/C30"),
 }
 
+FSM_TEXT = "TLC explores spec/PeerSwap.tla (node + environment; state tables extracted from the code under test; every Action as a sequence of failable/crashable service calls) over role x chain x fault x crash x adversary configurations and exports the shortest schedule per coverage key, including every distinct set of violations the model predicts. Each schedule is executed on the REAL swap.SwapService (real FSM, actions, bbolt store, policy file, premium store, retransmitter, Bitcoin validator) inside a simulated chain/Lightning/wallet/peer; TLC replays the recorded events through the observer spec/PeerSwapObs.tla and evaluates the property checks at every event. The model's predicted final states and violations are compared with the real run (drift is reported, never a violation)."
+FSM_NOTE = 'Bounded: 1-2 swaps, <= 4-6 environment steps, <= 1 service failure or crash per behaviour in the quick tier; Lightning node, chain, wallets and the peer are simulated (harness/l1); Liquid transactions are abstract records at this level (the real Liquid validator/builders are checked by engine tx).'
+CLAIMED.update({
+    "C06": ("swapfsm", "model_checking", FSM_TEXT + " For this property: coop_close is judged at every send against the ground-truth status of the swap's claim payment (HTLC created / pending / settled / failed as decided by the schedule).", FSM_NOTE,
+            "TLA+ design model + TLC schedule export + real-code execution + TLC trace validation (observer)", "7/C06"),
+    "C07": ("swapfsm", "model_checking", FSM_TEXT + " For this property: after every successful wallet broadcast the persisted record must name the opening tx at every quiescent point, and a maker swap may only be terminal when paid or spent back.", FSM_NOTE,
+            "TLA+ design model + TLC schedule export + real-code execution + TLC trace validation (observer)", "7/C07"),
+    "C09": ("swapfsm", "model_checking", FSM_TEXT + " For this property: registry and store snapshots before/after every delivery; messages from third parties, requests reusing ids, and messages unacceptable in the current state must change nothing.", FSM_NOTE,
+            "TLA+ design model + TLC schedule export + real-code execution + TLC trace validation (observer)", "7/C09"),
+    "C10": ("swapfsm", "model_checking", FSM_TEXT + " For this property: at every quiescent point the registry and the unfinished records hold at most one swap per normalised channel; requests/initiations on a busy channel are refused with cancel.", FSM_NOTE,
+            "TLA+ design model + TLC schedule export + real-code execution + TLC trace validation (observer)", "7/C10"),
+    "C11": ("swapfsm", "model_checking", FSM_TEXT + " For this property: Admit(config, request classes) <=> agreement sent; refusals must send a cancel carrying the swap id.", FSM_NOTE,
+            "TLA+ design model + TLC schedule export + real-code execution + TLC trace validation (observer)", "7/C11"),
+    "C12": ("swapfsm", "model_checking", FSM_TEXT + " For this property: amounts passed to the Lightning node and the wallet (fee payment, claim HTLC, opening tx, invoices, responder premium) against request/agreement fields.", FSM_NOTE,
+            "TLA+ design model + TLC schedule export + real-code execution + TLC trace validation (observer)", "7/C12"),
+    "C13": ("swapfsm", "model_checking", FSM_TEXT + " For this property: anchor persisted before the pubkey leaves; never changes; no claim HTLC without it (Liquid configurations).", FSM_NOTE,
+            "TLA+ design model + TLC schedule export + real-code execution + TLC trace validation (observer)", "7/C13"),
+    "C14": ("swapfsm", "model_checking", FSM_TEXT + " For this property: every record reloaded at restart equals (digest of the full JSON of the state machine) the last record written; the continuation is compared with the model's prediction.", FSM_NOTE,
+            "TLA+ design model + TLC schedule export + real-code execution + TLC trace validation (observer)", "7/C14"),
+    "C15": ("swapfsm", "model_checking", FSM_TEXT + " For this property: at most one successful opening broadcast per swap, no payment after a persisted cancel, re-sent requests/agreements byte-identical.", FSM_NOTE,
+            "TLA+ design model + TLC schedule export + real-code execution + TLC trace validation (observer)", "7/C15"),
+    "C17": ("swapfsm", "model_checking", FSM_TEXT + " For this property: after the clock passed the negotiation timeout and all due timers fired, requester / swap-out responder must be cancelled and the peer told - also after restarts.", FSM_NOTE,
+            "TLA+ design model + TLC schedule export + real-code execution + TLC trace validation (observer)", "7/C17"),
+    "C21": ("swapfsm", "model_checking", FSM_TEXT + " For this property: type number and re-encoding of every sent message; junk type strings / payloads (null, {}, arrays, bad ids, > 100 KiB) must change nothing and must not panic.", FSM_NOTE,
+            "TLA+ design model + TLC schedule export + real-code execution + TLC trace validation (observer)", "7/C21"),
+    "C23": ("swapfsm", "model_checking", FSM_TEXT + " For this property: every sent payload is scanned (hex / raw / base64) for every swap key and preimage the node holds; only the taker key inside that swap's coop_close is allowed.", FSM_NOTE,
+            "TLA+ design model + TLC schedule export + real-code execution + TLC trace validation (observer)", "7/C23"),
+})
+
 NOT_YET = {}
 
 
@@ -55,6 +84,8 @@ def main():
         engines=[
             dict(name="feeversion", path="engines/feeversion.py", serves_properties=["C30"],
                  kind_free_text="TLA+ functional spec, TLC case enumeration, trace validation of real answers"),
+            dict(name="swapfsm", path="engines/swapfsm.py", serves_properties=sorted(k for k, v in CLAIMED.items() if v[0] == "swapfsm"),
+                 kind_free_text="TLA+ design model of the swap FSMs (PeerSwap.tla) + observer (PeerSwapObs.tla); TLC export; harness/l1; trace validation"),
         ],
         checks=checks,
         not_applicable=na,
